@@ -46,12 +46,26 @@ def fix_list():
     return "%d commits on top of the pinned upstream commit (oldest first):\n\n" % len(rows) + "\n".join(rows)
 
 
+def as_built():
+    """Appendix B: the builders' as-built notes (notes/*.md), demoted by two heading levels"""
+    out = []
+    d = os.path.join(V, "notes")
+    for f in sorted(os.listdir(d)):
+        if not f.endswith(".md"):
+            continue
+        txt = open(os.path.join(d, f)).read().strip()
+        txt = re.sub(r"(?m)^(#+) ", lambda m: "#" * min(6, len(m.group(1)) + 2) + " ", txt)
+        out.append("### B.%s (notes/%s)\n\n%s\n" % (f[:-3], f, txt))
+    return "\n".join(out)
+
+
 def main():
     subprocess.run([sys.executable, os.path.join(V, "tools", "seeded_table.py")], check=True)
     p = os.path.join(V, "DESIGN.md")
     s = open(p).read()
     s = block(s, "STATUS-TABLE", status_table())
     s = block(s, "FIX-LIST", fix_list())
+    s = block(s, "AS-BUILT", as_built())
     open(p, "w").write(s)
 
 if __name__ == "__main__":
